@@ -72,6 +72,10 @@ def main():
     case("irrigation decision reads other thresholds than the configured ones", ("Irrigate", "cfgMethod"),
          lambda d: d["events"][find(d, "Irrigate", lambda e: e["gs"], nth=5)].__setitem__("maxIrr", to_num(3.0)))
 
+    case("weather value used on a day differs from the user's record of that date", ("DayBegin.weather", "byValue"),
+         lambda d: d["events"][find(d, "DayBegin", nth=25)].__setitem__("Tmax", to_num(from_num(d["events"][find(d, "DayBegin", nth=25)]["Tmax"]) + 0.5)))
+    case("irrigation decision based on another depletion estimate than the state implies", ("Irrigate", "estimate"),
+         lambda d: bump(d, find(d, "Irrigate", lambda e: e["gs"] and "deplExp" in e, nth=7), ["deplExp"], 3.0))
     case("initialisation stored another application efficiency than the user's", ("Init.config", "irr"),
          lambda d: d["cfg"]["built"]["irr"].__setitem__("AppEff", to_num(55.0)))
 
